@@ -210,6 +210,25 @@ impl ProtoCtx {
                 let (a, b, c, d) = deserialize_identity_tuple(parse_bytes(w[1])?);
                 format!("{} {} {} {}", fr_hex(&a), fr_hex(&b), fr_hex(&c), fr_hex(&d))
             }
+            // ---------------------------------------------------------------- identities (C14)
+            ("keygen_seeded", 2) => { let (a, b) = seeded_keygen(&parse_bytes(w[1])?); format!("{} {}", fr_hex(&a), fr_hex(&b)) }
+            ("keygen_ext_seeded", 2) => { let (a, b, c, d) = extended_seeded_keygen(&parse_bytes(w[1])?); format!("{} {} {} {}", fr_hex(&a), fr_hex(&b), fr_hex(&c), fr_hex(&d)) }
+            ("keygen", 1) => { let (a, b) = keygen(); format!("{} {}", fr_hex(&a), fr_hex(&b)) }
+            ("keygen_ext", 1) => { let (a, b, c, d) = extended_keygen(); format!("{} {} {} {}", fr_hex(&a), fr_hex(&b), fr_hex(&c), fr_hex(&d)) }
+            ("ffi_seeded_key_gen", 2) | ("ffi_seeded_ext_key_gen", 2) | ("ffi_key_gen", 1) | ("ffi_ext_key_gen", 1) => {
+                use rln::ffi;
+                let ctx: *const RLN = self.rln() as *const RLN;
+                let seed = if w.len() == 2 { parse_bytes(w[1])? } else { vec![] };
+                let ib = ffi::Buffer { ptr: seed.as_ptr(), len: seed.len() };
+                let mut ob = ffi::Buffer { ptr: std::ptr::null(), len: 0 };
+                let ok = match w[0] {
+                    "ffi_seeded_key_gen" => ffi::seeded_key_gen(ctx, &ib, &mut ob),
+                    "ffi_seeded_ext_key_gen" => ffi::seeded_extended_key_gen(ctx, &ib, &mut ob),
+                    "ffi_key_gen" => ffi::key_gen(ctx, &mut ob),
+                    _ => ffi::extended_key_gen(ctx, &mut ob),
+                };
+                if ok { format!("ok {}", show_bytes(&crate::hashops::ffi_read(&ob))) } else { "err".into() }
+            }
             // ---------------------------------------------------------------- the RLN object
             ("rln", _) if w.len() >= 2 => return self.rln_op(&w[1..]),
             // independent oracle: arkworks point decoding and the Groth16 verdict for the values read
@@ -267,6 +286,10 @@ impl ProtoCtx {
             ("verify", _) if w.len() >= 2 => verdict(self.rln().verify(Cursor::new(parse_bytes(w[1])?))),
             ("verify_rln", _) if w.len() >= 2 => verdict(self.rln().verify_rln_proof(Cursor::new(parse_bytes(w[1])?))),
             ("verify_roots", _) if w.len() >= 3 => verdict(self.rln().verify_with_roots(Cursor::new(parse_bytes(w[1])?), Cursor::new(parse_bytes(w[2])?))),
+            ("seeded_key_gen", 2) => { let mut c = Cursor::new(Vec::new()); let r = self.rln().seeded_key_gen(Cursor::new(parse_bytes(w[1])?), &mut c); out(r, c) }
+            ("seeded_ext_key_gen", 2) => { let mut c = Cursor::new(Vec::new()); let r = self.rln().seeded_extended_key_gen(Cursor::new(parse_bytes(w[1])?), &mut c); out(r, c) }
+            ("key_gen", 1) => { let mut c = Cursor::new(Vec::new()); let r = self.rln().key_gen(&mut c); out(r, c) }
+            ("ext_key_gen", 1) => { let mut c = Cursor::new(Vec::new()); let r = self.rln().extended_key_gen(&mut c); out(r, c) }
             ("recover", 3) => { let mut c = Cursor::new(Vec::new()); let r = self.rln().recover_id_secret(Cursor::new(parse_bytes(w[1])?), Cursor::new(parse_bytes(w[2])?), &mut c); out(r, c) }
             _ => return None,
         })
